@@ -65,7 +65,7 @@ OPS = [
     'borrow', 'borrow capacities', 'claim', 'pipe.transfer',
     'interval', 'delay', 'await task', 'collect', 'first',
     'scope', 'until', 'until true', 'raise',
-    'scope failing', 'until graceful',
+    'scope failing', 'until graceful', 'first slow failing',
 ]
 
 
@@ -359,6 +359,26 @@ def make_op(W, name, tag):
         async def victim():
             async with until(time + u) as s:       # the body ends at once, the scope waits
                 s.do(sub())
+    elif name == 'first slow failing':
+        d1, d2 = n('d1'), n('d2')
+        b = n('b')
+
+        async def sub(d, r):
+            await (time + d)
+            return r
+
+        async def failing(d):
+            await (time + d)
+            L('sub-raise')
+            raise W.err
+
+        async def victim():
+            try:
+                async for r in first(sub(d1, 'a'), failing(d2), count=None):
+                    L('result', r)
+                    await (time + b)        # busy consumer: the failure may strike here
+            except Concurrent:
+                L('concurrent')
     elif name == 'raise':
         d = n('d')
 
